@@ -56,6 +56,27 @@ def option_none_errs(b, call_t):
     return False, None
 
 
+def pure_forward(b):
+    """the method only delegates to the same trait method of a field of self, passing its own parameters through in
+    order, and returns that call's result: `fn m(&mut self, a, b) -> R { self.inner.m(a, b) }`"""
+    calls = [(bb, t) for bb, t in b.calls() if not b.is_cleanup(bb)]
+    same = [(bb, t) for bb, t in calls if (t.get('callee') or '').rsplit('::', 1)[-1] == b.name and (t.get('callee') or '').rsplit('::', 1)[0] == (b.j.get('impl_trait') or '')]
+    if len(same) != 1 or len(calls) != 1:
+        return False
+    t = same[0][1]
+    if len(t['args']) != b.nargs:
+        return False
+    ro = origin(b, t['args'][0])
+    if ro.params() != {1} or not ro.fields or ro.has_arith() or ro.call_names():
+        return False
+    for i, a in enumerate(t['args'][1:], start=2):
+        ao = origin(b, a)
+        if ao.params() != {i} or ao.has_arith() or ao.fields or ao.call_names():
+            return False
+    rt = return_origin(b)
+    return any(c is t for c in rt.calls) and not rt.has_arith()
+
+
 def run(ctx):
     f = ctx.f
     # ---- IMPLS
@@ -69,6 +90,9 @@ def run(ctx):
     for key, meths in sorted(seen.items(), key=str):
         rev = IMPLS.get(key)
         extra = meths - (rev or set())
+        # an additional override that only delegates to the wrapped reader adds no behaviour of its own
+        extra = {m for m in extra if not all(pure_forward(b) for b in f.body_list
+                                             if b.j['kind'] != 'closure' and b.j.get('impl_trait') == key[0] and b.j.get('self_adt') == key[1] and b.name == m)}
         ctx.ob('IMPLS', '%s for %s' % (key[0].rsplit('::', 1)[1], (key[1] or '?').rsplit('::', 1)[1]), rev is not None and not extra, None,
                'implements %s; reviewed: %s%s' % (sorted(meths), sorted(rev) if rev else 'NOT a reviewed implementation',
                                                   ('; unreviewed override(s): %s' % sorted(extra)) if extra and rev else ''))
@@ -292,6 +316,8 @@ def skip_rule(ctx):
             consumes = [1 for bb, t in b.calls() if (t.get('callee') or '') == 'std::io::BufRead::consume']
             if to.params() == {2} and not to.has_arith() and eq and not consumes:
                 shape = 'copy through take(n) into a sink, Ok only if copied == n'
+        if shape is None and pure_forward(b):
+            shape = 'delegates to the wrapped reader\'s skip_bytes(n)'
         ctx.ob('SKIP', fl, shape is not None, short_loc(b.span),
                ('skip_bytes has the reviewed shape: %s' % shape) if shape else
                'skip_bytes implementation matches neither reviewed shape (slice advance by get(n..) / copy through take(n) with `copied == n`): the number of bytes skipped is not established to be n')
